@@ -28,3 +28,23 @@ Proof. exact ProofsC.t_unknown_fields. Qed.
    (that it is not reported when present is part of C04 t_roundtrip) *)
 Theorem t_missing_field : t_missing_field_statement.
 Proof. exact ProofsC.t_missing_field. Qed.
+
+(* a field of the target absent from the input and not required: not reported, the field keeps its zero value *)
+Theorem t_absent_optional : t_absent_optional_statement.
+Proof. exact ProofsC.t_absent_optional. Qed.
+
+(* a declared field arriving with another wire type (the bytes are Marshal's for a conflicting schema; any position;
+   either protocol), strict mode (Decoder.SetStrict): TypeMismatch whenever the field is on the wire *)
+Theorem t_mismatch_strict : t_mismatch_strict_statement.
+Proof. exact ProofsC.t_mismatch_strict. Qed.
+
+(* ... non-strict mode: the value is skipped like an unknown field (consumed entirely), the declared field keeps its
+   zero value, all other fields decode as usual, and the field counts as seen for the required check
+   (true of the package since the fix of structDecoder.decode; the unfixed code did not consume the value) *)
+Theorem t_mismatch_skipped : t_mismatch_skipped_statement.
+Proof. exact ProofsC.t_mismatch_skipped. Qed.
+
+(* a list whose item type differs from the declared one: TypeMismatch in strict mode; otherwise consumed entirely,
+   the previous value kept, decoding continues with what follows (true since the fix of decodeFuncSliceOf) *)
+Theorem t_mismatch_list : t_mismatch_list_statement.
+Proof. exact ProofsC.t_mismatch_list. Qed.
